@@ -173,7 +173,7 @@ def run(tier, seed):
     try:
         ntrace = trace_conformance(res, wd)
         plans = [({}, 8, 15, "no delays"),
-                 ({"updater.after_word": 15, "updater.in_dict_lock": 10}, 8, 12, "slow word-by-word merge inside the dictionary section"),
+                 ({"updater.after_word": 15, "updater.in_dict_lock": 10, "updater.before_dict_lock": 12}, 8, 12, "slow word-by-word merge inside the dictionary section, a pause before every dictionary section of the updater"),
                  ({"convert.before_pref_lock": 8, "confirm.before_pref_lock": 8, "updater.before_dict_lock": 8}, 16, 8, "delays between nested lock acquisitions"),
                  ({"saver.before_pref_lock": 30, "confirm.before_store_lock": 4}, 32, 5, "32 connections")]
         if tier != "quick":
